@@ -22,7 +22,7 @@ LEVEL_TEXT = ("Held on every generated (functional, representation, leaf-derivat
 LEVEL_NOTE = ("The reference is xitorch itself on the pure-function form (whose correctness is the subject of C03-C08, C12-C17); "
               "only the parameter plumbing differs between the two runs. Trusts torch.autograd.")
 RULE = ("full product functional x representation, with leaf-derivation {leaf, derived non-leaf} (non-leaf only where the representation "
-        "can hold non-Parameters), a seeded requires-grad mask over the three leaves (at least one True), dimension d in {2,3,4}; "
+        "can hold non-Parameters), a seeded requires-grad mask over the three leaves (at least one True), dimension d in {2,3,4,7} (7 > 5 makes the implicit backward use a Krylov solver through the Jacobian operator); "
         "non-trivial = the representation differs from 'pure', both runs returned, at least one first-order and one second-order "
         "leaf gradient was non-zero and compared")
 MIN_NONTRIVIAL = {"quick": 900, "thorough": 5000}
@@ -54,7 +54,7 @@ def cases(seed, tier):
                 if tier == "quick" and r == 0:
                     rg = [True, True, True] if rng.random() < 0.5 else rg
                 out.append({"group": fname.split(":")[0], "functional": fname, "rep": rep, "derived": bool(derived), "rg": [int(x) for x in rg],
-                            "d": rng.choice([2, 3, 4]), "s": rng.choice([0.3, 0.4, 0.5]),
+                            "d": rng.choice([2, 3, 4, 7]), "s": rng.choice([0.3, 0.4, 0.5]),
                             "seed": sub_seed(seed, "c09s", k)})
                 k += 1
     return out
